@@ -2,7 +2,7 @@
     semantics on the text of a written expression, succeeds on all of it, and the builder calls its actions
     make, run through the tree builder, leave exactly the tree the expression denotes. *)
 From PegV Require Import Base.Tac Base.ListX Spec.Syntax Spec.Peg Spec.Tokens Proofs.PegRel Model.Calls Model.Front
-  Generated.PegPeg Reader.Base Reader.Lex Reader.Chars Reader.Lits Reader.Expr Reader.Bridge.
+  Generated.PegPeg Reader.Base Reader.Lex Reader.Chars Reader.Lits Reader.Expr Reader.Bridge Reader.File Reader.FileBridge.
 Local Open Scope Z_scope.
 
 Section Top.
@@ -50,6 +50,21 @@ Proof.
   - exists n, f, evs, tree. cbn [Nat.add] in H1. auto.
 Qed.
 
+(** a whole grammar file *)
+Theorem reader_file f : file_ok f ->
+  exists n fo evs nodes,
+    peg_ev pegpeg_d pegpeg_d_ptx (fshow f) penv n (EName pr_Grammar) 0 = Some (Succ (length (fshow f)) fo, evs) /\
+    calls_of_forest (fshow f) fo = fcalls f /\
+    frun nm ak (fcalls f) finit = Some {| back := nodes; pend := None; stk := []; pegn := None |} /\
+    file_nodes nm ak f = Some nodes.
+Proof.
+  intros Hok.
+  destruct (grammar_ok (fshow f) penv f (0%nat, 0%nat) Hok eq_refl) as (t' & evs' & (fo & (n & evs & Hev) & Htr) & Hc).
+  destruct (file_calls_build nm ak f Hok) as (nodes & Hn & Hr).
+  exists n, fo, evs, nodes. split; [exact Hev|]. split; [|split; assumption].
+  unfold calls_of_forest. rewrite Htr. exact Hc.
+Qed.
+
 End Top.
 
 (** non-vacuity: a written expression with every kind of construct is well formed *)
@@ -90,5 +105,44 @@ Proof.
       | |- forall _, _ => intro
       | |- True => exact I
       | |- _ \/ _ => left; discriminate
+      end ].
+Qed.
+
+(** ... and a whole file:  # c (newline) package p (newline) import x "a/b" (newline) import ( (newline) "c" (newline) ) (newline)
+    type T Peg { n int } (newline) a <- [sample]   b (U+2190) 'y' (newline) *)
+Definition sample_file : cfile :=
+  {| f_header := [HCmt false [32; 99] [10]; HSp [10]];
+     f_s_pkg := [32]; f_pkg := [112]; f_s1 := [10];
+     f_imports := [ISingle [32] {| in_alias := Some ([120], [32]); in_path := [97; 47; 98] |} [10];
+                   IMulti [32] [10] [({| in_alias := None; in_path := [99] |}, [])] [10]];
+     f_s_type := [32]; f_peg := [84]; f_s2 := [32]; f_s3 := [32]; f_state := [32; 110; 32; 105; 110; 116; 32]; f_s4 := [10];
+     f_defs := [{| d_name := [97]; d_s1 := [32]; d_uni := false; d_s2 := [32]; d_body := sample |};
+                {| d_name := [98]; d_s1 := [32]; d_uni := true; d_s2 := [32]; d_body := XLit false [KRaw 121] [10] |}] |}.
+
+Lemma sample_file_ok : file_ok sample_file.
+Proof.
+  unfold file_ok, sample_file. cbn [f_header f_s_pkg f_pkg f_s1 f_imports f_s_type f_peg f_s2 f_s3 f_state f_s4 f_defs].
+  repeat first
+    [ progress (cbn [header_ok hitem_ok imp_ok iname_ok defs_ok def_ok d_name d_s1 d_s2 d_body in_alias in_path fst snd flat_map hshow app glue sample])
+    | exact sample_wf
+    | progress (unfold iname_ok, def_ok)
+    | match goal with
+      | |- wf _ => constructor
+      | |- Forall _ (_ :: _) => constructor
+      | |- Forall _ [] => constructor
+      | |- _ /\ _ => split
+      | |- lay [] => constructor
+      | |- lay (_ :: _) => apply lay_sp; [lia|]
+      | |- nolb _ => repeat constructor; lia
+      | |- is_eol _ => unfold is_eol; auto
+      | |- bal [] => constructor
+      | |- bal (_ :: _) => apply bal_char; [lia|lia|]
+      | |- _ = true => reflexivity
+      | |- _ = false => reflexivity
+      | |- _ <> [] => discriminate
+      | |- head_ne _ _ => let E := fresh in intros ? ? E; inversion E; subst; lia
+      | |- _ -> _ => let E := fresh in intro E; try discriminate E; try (inversion E; subst; clear E)
+      | |- forall _, _ => intro
+      | |- True => exact I
       end ].
 Qed.
